@@ -314,7 +314,7 @@ def values_at(P, fn, target_ev, expr, env0, max_states=5000):
     return out
 
 
-def trace_calls(P, fn, env0, max_steps=20000):
+def trace_calls(P, fn, env0, max_steps=20000, _depth=0):
     """Finite-domain evaluation of the control skeleton of fn for ONE element of
     the finite input domain (env0 binds the enumerated parameters, e.g. a
     concrete length and address): values that cannot be evaluated become
@@ -382,6 +382,18 @@ def trace_calls(P, fn, env0, max_steps=20000):
                 except (Top, ZeroDivisionError, KeyError):
                     env.pop(name, None)
             elif ev.k == 'call':
+                g = P.functions.get(ev.callee) if P is not None else None
+                if g is not None and g.file == fn.file and g is not fn and _depth < 3:
+                    # a helper of the same unit: evaluate its skeleton in place (its result stays unknown)
+                    sub_env = {}
+                    for i_, a in enumerate(ev.args):
+                        if i_ < len(g.params):
+                            try:
+                                sub_env[g.params[i_]['name']] = fd.ev(fn, strip_casts(a), env)
+                            except (Top, ZeroDivisionError, KeyError):
+                                pass
+                    out.extend(trace_calls(P, g, sub_env, max_steps, _depth + 1))
+                    continue
                 out.append((ev.callee, [arg_desc(a) for a in ev.args], ev))
                 for a in ev.args:
                     a0 = strip_casts(a)
